@@ -1311,6 +1311,15 @@ class FuncAnalysis:
             return opaque_app
         ctx._inline_stack = stack + [callee.qual]  # type: ignore
         try:
+            # a *finder* - a loop over a literal table that returns at its first match - is read as the if-chain it
+            # abbreviates (sa/normalise.py), so that its result is a decision tree and not "something from a loop"
+            if not isinstance(callee.node, ast.Lambda) and any(isinstance(st_, ast.For) and any(isinstance(y_, ast.Return) for y_ in ast.walk(st_)) for st_ in callee.node.body) and not callee.__dict__.get("_unrolled_from"):
+                from .normalise import unrolled as _unrolled
+
+                try:
+                    callee = _unrolled(self.model, callee)
+                except AnalysisError:
+                    pass
             fa = ctx.analysis(callee)
             rt = fa.return_term(depth + 1)
         finally:
